@@ -83,6 +83,8 @@ impl WaitGroup {
 
     // Slow path: Wait for notification.
     loop {
+      #[cfg(rzmq_verif)]
+      crate::verif::apoint("wg.wait.after_check").await;
       // Wait until notified. notified() consumes a permit.
       self.notify_on_zero.notified().await;
 
